@@ -121,6 +121,15 @@ def kCount : Kernel Nat :=
     onComplete := fun n => (n, [.emit (.int n), .complete])
     enc := fun n => .int n, dec := fun d => d.toInt.toNat }
 
+/-- `time_interval` (src/operators/time_interval.rs): the time elapsed since the previous item — nothing for the
+    first item, one duration for every later item and one more at completion.  The durations themselves are not
+    modelled (the harness maps them to `()`); the state is "a start time has been stored". -/
+def kTimeInterval : Kernel Bool :=
+  { init := false
+    onNext := fun started _ => (true, if started then [.emit .unit] else [])
+    onComplete := fun started => (started, (if started then [.emit .unit] else []) ++ [.complete])
+    enc := fun b => .bool b, dec := fun d => d.toBool }
+
 def kSumAndCount : Kernel (Option Data × Nat) :=
   { init := (none, 0)
     onNext := fun (acc, n) x =>
